@@ -38,7 +38,10 @@ PICK = [
     ('C14', lambda r, d, c: r == 'C14.c' and 'missing' in d, 'C17.f'),
     ('C14', lambda r, d, c: r == 'C14.a' and 'finite' in d, 'C17.f'),
     ('C15', lambda r, d, c: r == 'C15.b' and 'mask' in d, 'C17.f'),
-    ('C16', lambda r, d, c: r == 'C16.a' and ('bitmap' in d or 'bit position' in d), 'C17.f'),
+    ('C16', lambda r, d, c: r == 'C16.a' and ('bitmap' in d or 'bit position' in d or 'missing mask' in d or 'validity' in d or 'bitmap' in (c or '')), 'C17.f'),
+    ('C03', lambda r, d, c: r in ('C03.b', 'C03.j'), 'C17.c'),
+    ('C13', lambda r, d, c: r == 'C13.i', 'C17.f'),
+    ('C13', lambda r, d, c: r == 'C13.b' and ('validity mask' in d or 'placeholder' in d or 'missing' in d), 'C17.f'),
 ]
 
 
@@ -55,13 +58,9 @@ def run(P, R, tier):
     n = 0
     for mod, pred, new in PICK:
         if mod not in cache:
-            m = importlib.import_module(f'rules.{mod}')
-            sub = type(R)(R.prop, R.tier)
-            try:
-                m.run(P, sub, 'quick')
-            except AnalysisError as e:
-                if not any(o.status == 'violated' for o in sub.obs):
-                    raise
+            sub, err = _common.sub_results(P, R, mod)       # shared with the forwards of the other modules (each module runs once per process)
+            if err is not None and not any(o.status == 'violated' for o in sub.obs):
+                raise err
             cache[mod] = sub
         for o in cache[mod].obs:
             if pred(o.rule, o.detail, o.construct):
